@@ -4,7 +4,7 @@ import B6.Model.Search
 Driver for C06.  One case = one index, then any number of (query, call sequence) blocks.
 
 ops (tokens are written with a leading `'` so that the empty token/prefix is a word; values are naturals):
-  `index <array|tree|compact> 'tok ( v v v ) 'tok ( ) …`   answer `ok`         tokens and values in increasing order
+  `index <array|tree> 'tok ( v v v ) 'tok ( ) …`, `index compact 'ns 'ns … | 'tok ( v v ) …` (namespace table first)   answer `ok`         tokens and values in increasing order
   `query <q>`                                       answer `ok`         q ::= ( e ) | ( a 'tok ) | ( u q* ) | ( i q* )
                                                                               | ( r <begin> <end> q ) | ( p 'prefix )
   `next`                                            answer `true <v>` | `false` | `panic`
@@ -105,7 +105,7 @@ def resyncSpec (c : Cursor) (v : Nat) : Cursor :=
 
 def stepCall (st : St) (r : Run) (call : Call) (impl : String) : St × Verdict :=
   if r.done then (st, .bad) else
-  let o := ops st.fuel r.d
+  let o := ops (fun _ => True) st.fuel r.d
   let mres := match call with | .next => o.next r.it | .advance k => o.advance k r.it
   let mans := renderRes o mres
   let it' := match mres with | .ok (_, it) => it | .error _ => r.it
@@ -135,13 +135,19 @@ def step (st : St) (op impl : String) : St × Verdict :=
     let k? : Option LeafKind :=
       if kind == "array" then some .array else if kind == "tree" then some .tree
       else if kind == "compact" then some .compact else none
-    match k?, parseLists rest [] with
-    | some k, some lists =>
-      let ix : Index := ⟨k, lists⟩
+    -- compact: the namespace table first, `'name 'name … |`
+    let (names?, rest) : Option (List String) × List String :=
+      if kind == "compact" then
+        let ns := rest.takeWhile (· ≠ "|")
+        ((ns.mapM parseTok).map (·.map String.ofList), (rest.dropWhile (· ≠ "|")).drop 1)
+      else (some [], rest)
+    match k?, names?, parseLists rest [] with
+    | some k, some names, some lists =>
+      let ix : Index := { kind := k, lists := lists, names := names }
       if validB ix then
         ({ ix := some ix, fuel := ix.total + 1, run := none }, if impl == "ok" then .ok else .diff "ok")
       else (st, .bad)
-    | _, _ => (st, .bad)
+    | _, _, _ => (st, .bad)
   | "query" :: rest =>
     match st.ix, parseQuery rest with
     | some ix, some (q, []) =>
